@@ -42,7 +42,7 @@ def o1(W, ob):
                  'adjust_gamestate must run exactly when check_simulation_consistency(..) reports a frame; its guard is '
                  + dnf_str(g), where(h, t.line))
         a1 = cx.expr_operand(t.args[1])
-        ob.check('check_simulation_consistency(' in key(a1), 'handle_rollback_and_save|adjust-arg',
+        ob.check(key(a1) == 'SyncLayer::check_simulation_consistency(self.sync_layer, self.disconnect_frame)', 'handle_rollback_and_save|adjust-arg',
                  'the frame handed to adjust_gamestate is the result of check_simulation_consistency',
                  'the frame handed to adjust_gamestate is `%s`, not the result of check_simulation_consistency' % key(a1),
                  where(h, t.line))
@@ -511,6 +511,8 @@ from . import casts
 
 from . import removals
 
+from . import mustcall
+
 OBLIGATIONS = [
     ('C01.O1', 'rollback before simulate', 'In advance_rollback_frame every path to the new-frame input fetch passes a '
      'call that must-call check_simulation_consistency and the local input registration; adjust_gamestate runs exactly '
@@ -541,4 +543,5 @@ OBLIGATIONS = [
     ('C01.I', 'initial state', 'every constructor gives the fields this property\'s rules interpret (NULL_FRAME = none / nothing yet, 0 = first frame, latches open, typestate start) the value listed in tables/initial_state.json; every field compared with NULL_FRAME anywhere is listed; see rules/initial.py', initial.rule_for('C01')),
     ('C01.C', 'lossy integer casts', 'every sign-changing cast (signed -> unsigned; NULL_FRAME is -1) and every narrowing cast to < 32 bits or from 128 bits in the crate is in range by a dominating guard, by the shape of its operand, or listed with a reason in tables/casts.json; see rules/casts.py', casts.rule),
     ('C01.R', 'who may remove', 'every call that takes elements out of a collection this property\'s rules rely on (keyed removal from a map, or bulk / positional removal) is one of the reviewed sites in tables/removals.json; a lookup turned into a removal, a second prune, a clear on another path is reported; see rules/removals.py', removals.rule_for('C01')),
+    ('C01.M', 'must-call floor', 'the calls listed for this property in tables/must_call.json are made on every path from the entry of their function to a normal return (interprocedural must-call): a new early return, fast path or extra condition in front of one of them is reported; see rules/mustcall.py', mustcall.rule_for('C01')),
 ]
